@@ -106,4 +106,22 @@ META = {
         "note": "Partial: how aucoalesce derives result/summary from raw records is third-party behaviour used as oracle (e.g. ENRICHED-format LOGIN records are read as result 'fail' by the pinned library: recorded as an observation, replay findings/C14_enriched_login_replay.json).",
         "technique": "Coq proof (pure rendering function + tracker refinement) + correspondence through the real parser/reassembler",
     },
+    "C13": {
+        "text": "Coq theorems C13_rows_guarded (computed on the table GENERATED from the workers' ASTs: every blocking operation has a ctx.Done arm or the close-on-cancel idiom, every delivering helper goroutine is joined by its parent) and C13_cancel_responsive (for every worker of that table, every reachable state and every K: after Cancel every fair run has returned within 2K+4 rounds and no Deliver event follows the return of the worker including its helpers), plus C13_unguarded_hangs / C13_unjoined_delivers showing both hypotheses are necessary. Fault injection on the real workers in each blocking state (waiting for a writer to open the FIFO, idle read, login hand-off to an unready correlator, back-pressure with capacities 0/1/16, Read idle and busy): return within 2 s, nothing delivered after return.",
+        "design_ref": "DESIGN.md 6/C08-C13",
+        "note": "Partial: wall-clock bound and close(2) unblocking read(2) are runtime facts, measured. Trusted: go2v's recognition of the guard and join idioms (fails closed on unknown blocking calls).",
+        "technique": "Coq proof (LTS with potential function, instantiated with a generated blocking table) + fault injection on the real workers",
+    },
+    "C08": {
+        "text": "Coq theorems C08_wiring (generated: the three workers run under one errgroup whose context derives from the signal context, Wait's error is returned, the FIFO checks exist, main exits via log.Fatalln), C08_rows_guarded and C08_fail_stop (from every reachable daemon state, including a full audit buffer: a worker failure cancels the group; once cancelled every fair run exits within 2K+4 rounds, with status 1 on failure). The built binary is driven with real FIFOs: every failure cause and both signals, idle and under a flood that fills the 10000-slot buffer, plus four mis-configured paths; exit within 5 s, non-zero on failure.",
+        "design_ref": "DESIGN.md 6/C08-C13",
+        "note": "Partial: signal delivery, exit status of log.Fatalln, kernel FIFO behaviour and 'buffer full' under load are observed on the binary, not proved; bound proved in rounds, not seconds.",
+        "technique": "Coq proof (errgroup LTS over the generated table) + fault injection on the built daemon",
+    },
+    "C15": {
+        "text": "Coq theorems with the third-party parser/coalescer/correlator as explicit oracle arguments: C15_parse_first (the first unparsable non-empty line stops the processor and is the one reported; everything before it was pushed), C15_conservation (unconditionally: after shutdown every pushed non-EOE message is in exactly one group handed to the callback, as a permutation), C15_grouping / C15_read_grouping / C15_size_ok_few_seqs (records with equal sequence number form exactly one group under no-expiry, bounded in-flight and terminator-last), C15_errors and C15_slot (the first callback error is what Read returns; a later one is dropped only when one is pending), C15_limits (generated constants). Correspondence at two levels: real parseAuditLogs+Reassembler+reassemblerCB with a fake auditor, and the real Auditd.Read end to end against read composed with the correlator model.",
+        "design_ref": "DESIGN.md 6/C15",
+        "note": "Partial: go-libaudit's reassembler is hand-modelled (tied by correspondence), parsing/coalescing are oracles; sequence roll-over and real-time expiry are left out.",
+        "technique": "Coq proof (oracle-parametric model; permutation/invariant arguments) + two-level correspondence through the real reassembler",
+    },
 }
